@@ -266,4 +266,112 @@ Section OldCodecProofs.
     - destruct e; [destruct Hin as [Hin|[]]; discriminate Hin|exact Hin].
   Qed.
 
+  (* ---- the encoder's frame is a frame of the reference ---------------------------- *)
+  Definition ofits (tn data : list byte) : Prop :=
+    Z.of_nat (length tn) + 1 + Z.of_nat (length data) + 8 <= 64 * 1024 * 1024.
+
+  Lemma oencode_split tn data rest : tn <> [] -> ofits tn data ->
+    oref_split (oencode tn data ++ rest) =
+    if negb (create tn) then RBad msg kUnknownMessageType
+    else match parse tn data with None => RBad msg kParseError | Some m => RFrame msg m rest end.
+  Proof.
+    intros Hne Hf. unfold ofits in Hf. unfold oencode.
+    assert (Ltn : (1 <= length tn)%nat) by (destruct tn; [contradiction|cbn [length]; lia]).
+    set (nl := Z.of_nat (length tn) + 1).
+    set (cov := be_encode 4 nl ++ tn ++ [x00] ++ data).
+    assert (Lcov : length cov = (4 + (length tn + (1 + length data)))%nat).
+    { unfold cov. rewrite !app_length, be_encode_length. reflexivity. }
+    set (size := Z.of_nat (length cov) + 4).
+    assert (Hsz : 10 <= size <= 64 * 1024 * 1024) by (unfold size; rewrite Lcov; lia).
+    set (l4 := be_encode 4 size). set (ck := be_encode 4 (adler32 cov)).
+    assert (L4 : length l4 = 4%nat) by apply be_encode_length.
+    assert (Lck : length ck = 4%nat) by apply be_encode_length.
+    replace ((l4 ++ cov ++ ck) ++ rest) with (l4 ++ (cov ++ ck) ++ rest) by (rewrite <- !app_assoc; reflexivity).
+    rewrite oref_split_eq. rewrite !app_length, L4, Lck, Lcov.
+    destruct (Nat.ltb_spec (4 + (4 + (length tn + (1 + length data)) + 4 + length rest)) (4 + 10)) as [H1|H1]; [lia|].
+    rewrite (firstn_app_len 4 l4) by exact L4.
+    assert (Hd : be_decode_signed l4 = size) by (unfold l4; apply be_signed4; lia).
+    rewrite Hd. cbv zeta.
+    destruct (Z.ltb_spec size 10); [lia|]. destruct (Z.ltb_spec (64 * 1024 * 1024) size); [lia|]. cbn [orb].
+    set (n := Z.to_nat size).
+    assert (Hn : n = (length cov + 4)%nat) by (unfold n, size; lia).
+    destruct (Nat.ltb_spec (4 + (4 + (length tn + (1 + length data)) + 4 + length rest)) (4 + n)) as [H2|H2];
+      [rewrite Hn, Lcov in H2; lia|].
+    rewrite (skipn_app_len 4 l4) by exact L4.
+    rewrite (firstn_app_len n (cov ++ ck)) by (rewrite app_length; lia).
+    replace (l4 ++ (cov ++ ck) ++ rest) with ((l4 ++ cov ++ ck) ++ rest) by (rewrite <- !app_assoc; reflexivity).
+    rewrite (skipn_app_len (4 + n) (l4 ++ cov ++ ck)) by (rewrite !app_length; lia).
+    unfold oframe_result.
+    replace (n - 4)%nat with (length cov) by lia.
+    rewrite firstn_app_exact, skipn_app_exact.
+    unfold ck. rewrite be_unsigned_roundtrip by apply adler32_range.
+    rewrite Z.eqb_refl. cbn [negb].
+    assert (Hnl : be_decode_signed (firstn 4 cov) = nl).
+    { unfold cov. rewrite (firstn_app_len 4 (be_encode 4 nl)) by apply be_encode_length.
+      apply be_signed4. unfold nl. lia. }
+    rewrite Hnl.
+    destruct (Z.ltb_spec nl 2); [unfold nl in *; lia|].
+    destruct (Z.ltb_spec (size - 8) nl); [unfold nl, size in *; rewrite Lcov in *; lia|]. cbn [orb].
+    replace (Z.to_nat nl) with (length tn + 1)%nat by (unfold nl; lia).
+    assert (Hname : firstn (length tn + 1 - 1) (skipn 4 cov) = tn).
+    { unfold cov. rewrite (skipn_app_len 4 (be_encode 4 nl)) by apply be_encode_length.
+      replace (length tn + 1 - 1)%nat with (length tn) by lia. apply firstn_app_exact. }
+    assert (Hdata : skipn (4 + (length tn + 1)) cov = data).
+    { unfold cov. replace (be_encode 4 nl ++ tn ++ [x00] ++ data) with ((be_encode 4 nl ++ tn ++ [x00]) ++ data)
+        by (rewrite <- !app_assoc; reflexivity).
+      apply skipn_app_len. rewrite !app_length, be_encode_length. cbn [length]. lia. }
+    rewrite Hname, Hdata. reflexivity.
+  Qed.
+
+  Lemma oencode_length tn data : length (oencode tn data) = (4 + (4 + (length tn + (1 + length data))) + 4)%nat.
+  Proof. unfold oencode. rewrite !app_length, !be_encode_length. cbn [length]. lia. Qed.
+
+  Definition ogood (f : list byte * list byte) (m : msg) : Prop :=
+    fst f <> [] /\ create (fst f) = true /\ parse (fst f) (snd f) = Some m /\ ofits (fst f) (snd f).
+
+  Lemma oref_decode_frames : forall fs ms fuel, Forall2 ogood fs ms -> (length fs < fuel)%nat ->
+    oref_decode fuel (flat_map (fun f => oencode (fst f) (snd f)) fs) = (ms, None, []).
+  Proof.
+    intros fs ms fuel HF. revert fuel. induction HF as [|f m fs ms (Hne & Hc & Hp & Hf) _ IH]; intros fuel Hlt.
+    - destruct fuel; [lia|]. reflexivity.
+    - destruct fuel as [|fuel]; [lia|]. cbn [flat_map C18_OldCodec.oref_decode length] in *.
+      rewrite (oencode_split (fst f) (snd f) _ Hne Hf), Hc, Hp. cbn [negb].
+      rewrite IH by lia. reflexivity.
+  Qed.
+
+  (* every sequence of messages the encoder framed (type names the factory knows, payloads the
+     message type parses, frames within the limit), cut into chunks in any way, decodes to exactly
+     those messages; everything is consumed *)
+  Theorem old_codec_roundtrip : forall fs ms chunks,
+    Forall2 ogood fs ms ->
+    concat chunks = flat_map (fun f => oencode (fst f) (snd f)) fs ->
+    ofeed_all ocodec_init chunks = (map CMsg ms, mkD tt [] false false).
+  Proof.
+    intros fs ms chunks HF Hc.
+    pose proof (old_codec_equals_reference chunks) as H. cbv zeta in H. rewrite H, Hc.
+    rewrite (oref_decode_frames fs ms _ HF).
+    - rewrite app_nil_r. reflexivity.
+    - clear -HF. induction HF as [|f m fs ms _ _ IH]; cbn [flat_map length]; [lia|].
+      rewrite app_length, oencode_length. lia.
+  Qed.
+
+  (* the reject classes, read off the reference: valid frames, then a head the reference calls bad *)
+  Theorem old_codec_reject : forall fs ms t e chunks,
+    Forall2 ogood fs ms -> oref_split t = RBad msg e ->
+    concat chunks = flat_map (fun f => oencode (fst f) (snd f)) fs ++ t ->
+    ofeed_all ocodec_init chunks = (map CMsg ms ++ [CErr e], mkD tt t true false).
+  Proof.
+    intros fs ms t e chunks HF Hbad Hc.
+    pose proof (old_codec_equals_reference chunks) as H. cbv zeta in H. rewrite H, Hc. clear H Hc.
+    assert (Hd : forall fuel, (length fs < fuel)%nat ->
+              oref_decode fuel (flat_map (fun f => oencode (fst f) (snd f)) fs ++ t) = (ms, Some e, t)).
+    { clear chunks. induction HF as [|f m fs ms (Hne & Hc & Hp & Hf) _ IH]; intros fuel Hlt.
+      - destruct fuel; [lia|]. cbn [flat_map app C18_OldCodec.oref_decode]. rewrite Hbad. reflexivity.
+      - destruct fuel as [|fuel]; [lia|]. cbn [flat_map C18_OldCodec.oref_decode length] in *.
+        rewrite <- app_assoc, (oencode_split (fst f) (snd f) _ Hne Hf), Hc, Hp. cbn [negb].
+        rewrite IH by lia. reflexivity. }
+    rewrite Hd; [reflexivity|].
+    rewrite app_length. clear -HF. induction HF as [|f m fs ms _ _ IH]; cbn [flat_map length]; [lia|].
+    rewrite app_length, oencode_length. lia.
+  Qed.
 End OldCodecProofs.
